@@ -152,10 +152,13 @@ def _value(rng, kind, nodes, class_nodes=None):
 
 def gen_graph(rng, n_nodes=8, n_classes=3, n_props=4, bnodes=False,
               kinds=("node", "str", "int", "lang", "date", "iri"),
-              prop_namespaces=(EX,), multi_class=True, density=0.6, twins=0.06, meta=0.12):
+              prop_namespaces=(EX,), multi_class=True, density=0.6, twins=0.06, meta=0.12, odd_classes=0.1):
     """A general graph: nodes with 0..2 classes, each (node, prop) present with
     probability `density`, 1..3 values of one randomly chosen kind."""
     classes = [EX + "C%d" % i for i in range(n_classes)]
+    if rng.random() < odd_classes:
+        # valid class IRIs whose local name is not a plain word (shape labels are derived from it)
+        classes = [EX + "C%d,x" % i for i in range(n_classes)]
     props = []
     for i in range(n_props):
         ns = prop_namespaces[i % len(prop_namespaces)]
